@@ -86,6 +86,23 @@ def run_op(p, e, op, stash=None, meta=True, shared=None):
             else:
                 inp = op[1]
             return {'ok': canon(p.parse(inp, start=op[2]), meta)}
+        if kind == 'parse_win':
+            # one window of a DOCUMENT that the caller holds as one string object and walks in any order (forwards, backwards, from several
+            # threads): every operation of the run with the same document gets the same object; a fresh oracle gets an object of its own
+            from lark.utils import TextSlice
+            from sim import seams
+            sents, seps, i = op[1], op[2], op[3]
+            dkey = 'doc:' + repr((sents, seps))
+            doc = shared.get(dkey) if shared is not None else None
+            if doc is None:
+                doc = seams.mkbuf(''.join(sep + s_ for sep, s_ in zip(seps, sents)) + '\n##')
+                if shared is not None:
+                    shared[dkey] = doc
+            a = sum(len(seps[j]) + len(sents[j]) for j in range(i)) + len(seps[i])
+            win = TextSlice(doc, a, a + len(sents[i]))
+            if len(op) > 5 and op[5] == 'lex':
+                return {'tokens': _drain(p.lex(win), None)}
+            return {'ok': canon(p.parse(win, start=op[4]), meta)}
         if kind == 'parse_on_error':
             seen = []
 
